@@ -86,7 +86,77 @@ func (b *Body) validGates(fn *ssa.Function, p ssa.Value) []gateInfo {
 			}
 		}
 	}
+	// a library helper that validates the text it is given: the success edge of the test of
+	// its error is a gate for the argument
+	for _, bb := range fn.Blocks {
+		for _, ins := range bb.Instrs {
+			c, ok := ins.(*ssa.Call)
+			if !ok {
+				continue
+			}
+			h := c.Call.StaticCallee()
+			if h == nil || h.Pkg != b.Lib || len(h.Blocks) == 0 || h == fn {
+				continue
+			}
+			for i, a := range c.Call.Args {
+				if unwrapConv(a) != p || i >= len(h.Params) || !b.helperValidates(h, i) {
+					continue
+				}
+				for _, t := range errTestsOf(fn, c) {
+					out = append(out, gateInfo{c, t.Blk, 1 - t.NonNilSucc})
+				}
+			}
+		}
+	}
 	return out
+}
+
+// helperValidates: every return of h that can carry a nil error lies behind the valid edge of
+// a json.Valid gate on parameter i (so a nil error from h means the text is well-formed).
+func (b *Body) helperValidates(h *ssa.Function, i int) bool {
+	type hk struct {
+		f *ssa.Function
+		i int
+	}
+	if b.helperValMemo == nil {
+		b.helperValMemo = map[interface{}]int{}
+	}
+	k := hk{h, i}
+	switch b.helperValMemo[k] {
+	case 1:
+		return true
+	case 2, 3:
+		return false // 3: in progress (recursion)
+	}
+	b.helperValMemo[k] = 3
+	ok := false
+	ei := errResultIndex(h)
+	if ei >= 0 && isByteSlice(h.Params[i].Type()) {
+		gates := b.validGates(h, h.Params[i])
+		if len(gates) > 0 {
+			ok = true
+			for _, r := range liveReturns(h) {
+				if b.definitelyNonNilErr(retVal(r, ei), r.Block(), 0) {
+					continue
+				}
+				dom := false
+				for _, g := range gates {
+					if edgeDominates(g.blk, g.succ, r.Block()) {
+						dom = true
+					}
+				}
+				if !dom {
+					ok = false
+				}
+			}
+		}
+	}
+	if ok {
+		b.helperValMemo[k] = 1
+	} else {
+		b.helperValMemo[k] = 2
+	}
+	return ok
 }
 
 // codecSinks computes the validity-assuming entry points of the codec: exported
@@ -105,11 +175,7 @@ func (b *Body) codecSinks(l *Ledger) map[*ssa.Function]int {
 			if !isByteSlice(p.Type()) {
 				continue
 			}
-			for _, ci := range callsTo(fn, func(c *ssa.CallCommon) bool { return c.StaticCallee() == initM }) {
-				args := ci.Common().Args
-				if len(args) < 2 || unwrapConv(args[1]) != ssa.Value(p) {
-					continue
-				}
+			for _, ci := range b.initSites(fn, p) {
 				// gated?
 				gated := false
 				for _, vc := range callsTo(fn, func(c *ssa.CallCommon) bool { return c.StaticCallee() == checkValid }) {
@@ -816,4 +882,76 @@ func describeCond(v ssa.Value) string {
 		return al.Comment
 	}
 	return "_"
+}
+
+
+// initReach: for every codec function, the parameters whose value becomes the input of
+// (*decodeState).init — directly, or through codec helpers (decodeInto(data, v) { d.init(data) … }).
+func (b *Body) initReach() map[*ssa.Function]map[int]bool {
+	if b.initReachMemo != nil {
+		return b.initReachMemo
+	}
+	out := map[*ssa.Function]map[int]bool{}
+	initM := b.method(b.Codec, "decodeState", "init")
+	if initM == nil {
+		b.initReachMemo = out
+		return out
+	}
+	out[initM] = map[int]bool{1: true}
+	for changed := true; changed; {
+		changed = false
+		for _, fn := range b.srcFuncs(b.Codec) {
+			for pi, p := range fn.Params {
+				if out[fn][pi] || !isByteSlice(p.Type()) {
+					continue
+				}
+				allInstrs(fn, func(i ssa.Instruction) {
+					ci, ok := i.(ssa.CallInstruction)
+					if !ok {
+						return
+					}
+					g := ci.Common().StaticCallee()
+					if g == nil || out[g] == nil {
+						return
+					}
+					for ai, a := range ci.Common().Args {
+						if out[g][ai] && unwrapConv(a) == ssa.Value(p) {
+							if out[fn] == nil {
+								out[fn] = map[int]bool{}
+							}
+							if !out[fn][pi] {
+								out[fn][pi] = true
+								changed = true
+							}
+						}
+					}
+				})
+			}
+		}
+	}
+	b.initReachMemo = out
+	return out
+}
+
+// initSites: the calls in fn that hand value p on towards (*decodeState).init.
+func (b *Body) initSites(fn *ssa.Function, p ssa.Value) []ssa.CallInstruction {
+	reach := b.initReach()
+	var out []ssa.CallInstruction
+	allInstrs(fn, func(i ssa.Instruction) {
+		ci, ok := i.(ssa.CallInstruction)
+		if !ok {
+			return
+		}
+		g := ci.Common().StaticCallee()
+		if g == nil || reach[g] == nil {
+			return
+		}
+		for ai, a := range ci.Common().Args {
+			if reach[g][ai] && unwrapConv(a) == p {
+				out = append(out, ci)
+				return
+			}
+		}
+	})
+	return out
 }
